@@ -714,13 +714,19 @@ struct TemplateCore {
                 }
 
                 case TagPatterns::LoopEndID: {
-                    if ((loop_tag != nullptr) && parent_storage.IsNotEmpty()) {
+                    if ((loop_tag != nullptr) && parent_storage.IsNotEmpty() &&
+                        ((*(parent_storage.Last()))->Last()->GetType() == TagType::Loop)) {
                         storage = *(parent_storage.Last());
                         parent_storage.Drop(SizeT{1});
 
                         LoopTag &tag  = storage->Last()->GetLoopTag();
                         tag.EndOffset = (finder.GetOffset() - TagPatterns::LoopSuffixLength);
                         loop_tag      = tag.Parent;
+
+                        if (tag.EndOffset < (tag.Offset + tag.ContentOffset)) {
+                            // The opening tag was closed by the '>' of its own </loop>.
+                            storage->Drop(SizeT{1});
+                        }
                     }
 
                     finder.Next();
